@@ -34,6 +34,10 @@ literally as that theorem states them, from `HX w`.
     (`C02W.dynAuto_iff`).
   - `C09.Inv w.rm` (C09W; its clause `usageEq` quantifies over all resource names): the bounded form
     `C09W.InvD w.rm`; exact (`C09W.invD_iff`, `HC09W_iff`).
+* C13Q (`Static' ∧ Init ∧ InitQ`): the class of C06W (`HC06W`, with `StaticD`) and `C13Q.InitQ`, which
+  has its own instance.  C18D (`C18D.SD`): a `structure` of `C18W.Static (noScr w)`, `C18W.Fresh w`,
+  `C20W.Reg w` and a clause over the operations of the scripts; spelled out field by field, exact
+  (`HC18D_iff`).
 -/
 import SimProc.Props.C01W
 import SimProc.Props.C02
@@ -48,6 +52,7 @@ import SimProc.Props.C09W
 import SimProc.Props.C10W
 import SimProc.Props.C11W
 import SimProc.Props.C12W
+import SimProc.Props.C13Q
 import SimProc.Props.C14W
 import SimProc.Props.C15W
 import SimProc.Props.C15D
@@ -55,6 +60,7 @@ import SimProc.Props.C16W
 import SimProc.Props.C16D
 import SimProc.Props.C17W
 import SimProc.Props.C18W
+import SimProc.Props.C18D
 import SimProc.Props.C19W
 import SimProc.Props.C20W
 
@@ -298,6 +304,14 @@ instance (w : World) : Decidable (HC11W w) := by unfold HC11W; infer_instance
 def HC12W (w : World) : Prop := C12W.S w ∧ C12W.Fresh w
 instance (w : World) : Decidable (HC12W w) := by unfold HC12W; infer_instance
 
+/-- **C13Q**: `C13Q.qi_run`, `down_is_quiet`, `reservation_kept_run` (`C06W.Static' w0`, `C06W.Init w0`,
+`C13Q.InitQ w0`: the class of C06W — through `HC06W`, hence `StaticD` — and the clause on the initial
+queue / the part budgets of processors). -/
+def HC13Q (w : World) : Prop := HC06W w ∧ C13Q.InitQ w
+instance (w : World) : Decidable (HC13Q w) := by unfold HC13Q; infer_instance
+theorem HC13Q_sound {w : World} (h : HC13Q w) : C06W.Static' w ∧ C06W.Init w ∧ C13Q.InitQ w :=
+  ⟨(HC06W_sound h.1).1, (HC06W_sound h.1).2, h.2⟩
+
 /-- **C15W / C16W**: `C15W.supplied_count_reachable`, …, `C16W.vinv_reachable`, …
 (`C15W.Fresh w0`, `NoCreate w0`). -/
 def HC15W (w : World) : Prop := C15W.Fresh w ∧ C15W.NoCreate w
@@ -363,6 +377,30 @@ theorem HC18W_iff (w : World) : HC18W w ↔ C18W.Static w ∧ C18W.Fresh w :=
    fun ⟨s, f⟩ => ⟨⟨s.aids, s.scr, s.dur, s.ivl, s.nodup, s.refs⟩,
      ⟨f.notStarted, f.queue, f.noTracked, f.idx, f.unreg, f.noFin, f.recs, f.results⟩⟩⟩
 
+/-- **C18D**: `C18D.pending_transition_dyn`, `records_timetable_prefix_dyn`, `transition_step_dyn`,
+`late_equals_early_shifted`, … (`C18D.SD w0`: `C18W.Static` of the world without its scripts,
+`C18W.Fresh w0`, `C20W.Reg w0`, the scripts in the dynamic class `opD`); field by field, exact. -/
+def HC18D (w : World) : Prop :=
+  ((∀ a ∈ (C18W.tk (C03W.noScr w)).ta, a ≠ 0 ∧ ∀ d ∈ (C03W.noScr w).devs, d.aid ≠ a) ∧
+   (∀ l ∈ (C03W.noScr w).scripts, ∀ op ∈ l, C18W.opOK (C18W.tk (C03W.noScr w)).ta op = true) ∧
+   (∀ sw ∈ (C03W.noScr w).scheds, ∀ p ∈ sw.s.tt, 0 ≤ p.1) ∧
+   (∀ sw ∈ (C03W.noScr w).sensors, sw.s.kind = .periodic → 0 ≤ sw.s.interval) ∧
+   (C03W.noScr w).assets.Nodup ∧ (∀ a ∈ (C03W.noScr w).assets, C18W.refOK (C03W.noScr w) a = true)) ∧
+  (w.started = false ∧ C01.Inv w.env ∧
+   (∀ e ∈ w.env.events ++ w.env.paused, C18W.tracked e = false) ∧
+   (∀ sw ∈ w.scheds, sw.s.idx = 0) ∧ (∀ sw ∈ w.sensors, sw.registered = false) ∧
+   (∀ d ∈ w.devs, d.finSensors = []) ∧ (∀ r ∈ w.recs, C18W.trackedRec r = false) ∧
+   (∀ r ∈ w.results, C18W.trackedRes r = false)) ∧
+  C20W.Reg w ∧
+  (∀ l ∈ w.scripts, ∀ op ∈ l, C18D.opD (C18W.tk w).ta w.assets.length op = true)
+instance (w : World) : Decidable (HC18D w) := by unfold HC18D; infer_instance
+theorem HC18D_iff (w : World) : HC18D w ↔ C18D.SD w :=
+  ⟨fun ⟨⟨a, b, c, d, e, f⟩, ⟨g, h, i, j, k, l, m, n⟩, r, s⟩ =>
+     ⟨⟨a, b, c, d, e, f⟩, ⟨g, h, i, j, k, l, m, n⟩, r, s⟩,
+   fun ⟨s, f, r, c⟩ => ⟨⟨s.aids, s.scr, s.dur, s.ivl, s.nodup, s.refs⟩,
+     ⟨f.notStarted, f.queue, f.noTracked, f.idx, f.unreg, f.noFin, f.recs, f.results⟩, r, c⟩⟩
+theorem HC18D_sound {w : World} (h : HC18D w) : C18D.SD w := (HC18D_iff w).1 h
+
 /-- **C20W**: `C20W.reg_reachable`, `count_reachable` (`C20W.Reg w0`). -/
 def HC20W (w : World) : Prop := C20W.Reg w
 instance (w : World) : Decidable (HC20W w) := by unfold HC20W; infer_instance
@@ -417,6 +455,8 @@ def classReport (w : World) : List (String × Bool) :=
     ("C11W", flag (HC11W w)),
     -- `C12W.inv_of_fresh`, `C12W.inv_reachable`: `C12W.S w ∧ C12W.Fresh w`
     ("C12W", flag (HC12W w)),
+    -- `C13Q.qi_run`, `down_is_quiet`, `reservation_kept_run`: `C06W.Static' w ∧ C06W.Init w ∧ C13Q.InitQ w`
+    ("C13Q", flag (HC13Q w)),
     -- `C14W.world_run_split`: `C01W.Good w ∧ C01.Inv w.env ∧ C01.UserState w.env`
     ("C14W", flag (HC14W w)),
     -- `C15W.supplied_count_reachable` …, `C16W.vinv_reachable` …: `C15W.Fresh w ∧ NoCreate w`
@@ -442,6 +482,8 @@ def classReport (w : World) : List (String × Bool) :=
     ("C17W_O", flag (HC17WO w)),
     -- `C18W.si_reachable` …, `C19W.periodic_sensor_reachable` …: `C18W.Static w ∧ C18W.Fresh w`
     ("C18W", flag (HC18W w)),
+    -- `C18D.pending_transition_dyn` …: `C18D.SD w` (field by field, exact)
+    ("C18D", flag (HC18D w)),
     ("C19W", flag (HC18W w)),
     -- `C20W.reg_reachable`: `C20W.Reg w`
     ("C20W", flag (HC20W w)) ]
@@ -478,6 +520,7 @@ theorem classReport_spec (w : World) :
     (flagOf w "C10W_Q" = some true → (C10W.Cls w ∧ C10W.Fresh w) ∧ C10W.RegQuiet w ∧ C10W.CbQuiet w) ∧
     (flagOf w "C11W" = some true → C11W.S w ∧ C11W.FreshR w) ∧
     (flagOf w "C12W" = some true → C12W.S w ∧ C12W.Fresh w) ∧
+    (flagOf w "C13Q" = some true → C06W.Static' w ∧ C06W.Init w ∧ C13Q.InitQ w) ∧
     (flagOf w "C14W" = some true → C01W.Good w ∧ C01.Inv w.env ∧ C01.UserState w.env) ∧
     (flagOf w "C15W" = some true → C15W.Fresh w ∧ C15W.NoCreate w) ∧
     (flagOf w "C15W_L" = some true → (C15W.Fresh w ∧ C15W.NoCreate w) ∧ C01.Inv w.env) ∧
@@ -495,12 +538,13 @@ theorem classReport_spec (w : World) :
     (flagOf w "C17W" = some true → C17W.Init w) ∧
     (flagOf w "C17W_O" = some true → C17W.Init w ∧ C17W.NoFailNonProc w) ∧
     (flagOf w "C18W" = some true → C18W.Static w ∧ C18W.Fresh w) ∧
+    (flagOf w "C18D" = some true → C18D.SD w) ∧
     (flagOf w "C19W" = some true → C18W.Static w ∧ C18W.Fresh w) ∧
     (flagOf w "C20W" = some true → C20W.Reg w) := by
   simp only [flagOf, classReport, List.lookup, String.reduceBEq, Option.some.injEq, flag_iff]
   refine ⟨id, HC02_sound, (HC02W_iff w).1, id, id, id, id, id, id, HC05W_sound, HC06W_sound,
-    HC02_sound, (HC08S_iff w).1, HC09W_sound, id, id, id, id, id, id, id, id, id, id, (HC15DW_iff w).1, ?_, id, id,
-    HC17W_sound, fun h => ⟨HC17W_sound h.1, h.2⟩, (HC18W_iff w).1, (HC18W_iff w).1, id⟩
+    HC02_sound, (HC08S_iff w).1, HC09W_sound, id, id, id, id, HC13Q_sound, id, id, id, id, id, id, (HC15DW_iff w).1, ?_, id, id,
+    HC17W_sound, fun h => ⟨HC17W_sound h.1, h.2⟩, (HC18W_iff w).1, HC18D_sound, (HC18W_iff w).1, id⟩
   intro h
   exact ⟨h.1, (C02W.dynAuto_iff w).1 h.2⟩
 
